@@ -648,7 +648,10 @@ def akeSetOurCurrent : M Unit := do
 /-- akeHasFinished; returns the error of generateNewDHKeyPair (state is changed regardless) -/
 def akeHasFinished (K : Crypto) : M (Option Err) := do
   let a ← getAke
-  modc fun c => { c with keys := a.keys, ssid := if c.msgState == .encrypted then a.ssid else c.ssid,
+  -- repaired code: the MAC keys of the session that ends here (those waiting to be revealed and those
+  -- used to accept messages) are carried over into the reveal queue of the new session
+  modc fun c => { c with keys := { a.keys with oldMACKeys := a.keys.oldMACKeys ++ (c.keys.oldMACKeys ++ c.keys.macHistory.map (·.key)) },
+                         ssid := if c.msgState == .encrypted then a.ssid else c.ssid,
                          sentRevealSig := if c.msgState == .encrypted then a.sentRevealSig else c.sentRevealSig }
   modAke fun a => a.wiped
   let c ← getc
@@ -880,8 +883,14 @@ def startAuthenticateExpect1 (K : Crypto) (question secret : Bytes) : M (List Tl
     return [msg.tlv]
   | _ => throw .shortRandom
 
+/-- the longest question that fits into an SMP TLV next to its terminator, the MPI count and six
+    MPIs of at most 192 bytes (repaired code) -/
+def maxSMPQuestionLength : Nat := 0xffff - 1 - 4 - 6 * (4 + 192)
+
 /-- StartAuthenticate -/
 def startAuthenticate (K : Crypto) (question secret : Bytes) : M (List Bytes) := do
+  -- repaired code: the question travels in a TLV, whose length field has 16 bits
+  if question.length > maxSMPQuestionLength then throw (.other "question too long for a TLV")
   let c ← getc
   if c.smp.state.isNone then modc fun c => { c with smp := { c.smp with state := some .expect1 } }
   let c ← getc
@@ -1287,7 +1296,11 @@ def receiveUnit (K : Crypto) : Nat → Bytes → Bool → M RecvResult
       let r ← tryCatch (do let x ← receiveFragment c.fragCtx message; pure (Except.ok x)) (fun e => pure (Except.error e))
       let err ← match r with
         | .ok ctx => do modc (fun c => { c with fragCtx := ctx }); pure none
-        | .error e => pure (some e)     -- receiveFragment returns beforeCtx with the error
+        | .error e => do
+          -- receiveFragment returns beforeCtx with the error; repaired code: an invalid fragment does
+          -- not bind the conversation to the peer instance it names
+          modc (fun c' => { c' with theirTag := c.theirTag })
+          pure (some e)
       let c ← getc
       if c.fragCtx.finished then do
         let assembled := c.fragCtx.frag
@@ -1396,6 +1409,9 @@ def useExtraSymmetricKey (K : Crypto) (usage : Nat) (usageData : Bytes) : M (Byt
   let c ← getc
   if c.msgState != .encrypted || c.keys.theirKeyID == 0 then
     return ([], [], some (.other "cannot send message in current state"))
+  -- repaired code: the length field of a TLV has 16 bits, it must not wrap around
+  if usageData.length > 0xffff - 4 then
+    return ([], [], some (.other "usage data too long for a TLV"))
   let t : Tlv := ⟨tlvTypeExtraSymmetricKey, (4 + usageData.length % 65536) % 65536, appendWord [] usage ++ usageData⟩
   let r ← tryCatch (do let x ← createSerializedDataMessage K [] messageFlagIgnoreUnreadable [t]; pure (Except.ok x))
     (fun e => pure (Except.error e))
